@@ -294,7 +294,28 @@ def run(ctx):
     for i in range(0, len(gitems), 60):
         evaluate(ctx, R, pmap(gen_work, gitems[i:i + 60]), 'manip.pipeline')
     # the same dictionaries through the real get_basis (each filed in a data directory of its own)
-    ditems = [(lab, g, [c for c in cs if not c.get('direct')]) for lab, g, cs in gitems[:ctx.n(30, 400)]]
+    def fused_zero(g):
+        return any(frac(x) == 0 for el in g['elements'].values() for sh in el.get('electron_shells', []) if len(sh['angular_momentum']) > 1
+                   for c in sh['coefficients'] for x in c)
+    # every one of the 64 flag combinations (the flags interact inside get_basis: which steps schedule the final pruning), the dictionaries
+    # with a structural zero inside a fused shell first
+    # planted: a zero for one member of a fused shell on a primitive the other members use (legal: no empty row, no empty column)
+    for i in range(ctx.n(12, 120)):
+        g = genbasis.gen_basis(rng, kinds=['pople', 'plain'])
+        for el in g['elements'].values():
+            for sh in el.get('electron_shells', []):
+                if len(sh['angular_momentum']) > 1 and len(sh['exponents']) > 1:
+                    m, k = rng.randrange(len(sh['coefficients'])), rng.randrange(len(sh['exponents']))
+                    others_use = any(frac(c[k]) != 0 for j, c in enumerate(sh['coefficients']) if j != m)
+                    column_lives = any(frac(x) != 0 for j, x in enumerate(sh['coefficients'][m]) if j != k)
+                    if others_use and column_lives:
+                        sh['coefficients'][m][k] = rng.choice(['0.0', '0.0000000E+00'])
+        if wf_basis(g):
+            gitems.append(('genz%d' % i, g, []))
+    all64 = [{f: True for f, b in zip(FLAGS, bits) if b} for bits in itertools.product([False, True], repeat=6)]
+    chosen = sorted(gitems, key=lambda it: not fused_zero(it[1]))[:ctx.n(30, 400)]
+    ditems = [(lab, g, all64) for lab, g, cs in chosen]
+    R.extra['generated_through_get_basis_with_fused_zero'] = sum(1 for _, g, _ in chosen if fused_zero(g))
     for i in range(0, len(ditems), 60):
         evaluate(ctx, R, pmap(work, ditems[i:i + 60]), 'api.get_basis')
     R.exhaustive = False
